@@ -1,10 +1,14 @@
 pub mod common;
+pub mod sem;
 pub mod c01;
+pub mod c02;
+pub mod c03;
 pub mod c04;
 pub mod c05;
 pub mod c06;
 pub mod c07;
 pub mod c17;
+pub mod c19;
 pub mod c08;
 pub mod c09;
 
@@ -13,11 +17,14 @@ use crate::run::Config;
 pub fn dispatch(cfg: &Config) -> i32 {
     match cfg.prop.as_str() {
         "C01" => c01::run(cfg),
+        "C02" => c02::run(cfg),
+        "C03" => c03::run(cfg),
         "C04" => c04::run(cfg),
         "C05" => c05::run(cfg),
         "C06" => c06::run(cfg),
         "C07" => c07::run(cfg),
         "C17" => c17::run(cfg),
+        "C19" => c19::run(cfg),
         "C08" => c08::run(cfg),
         "C09" => c09::run(cfg),
         other => {
